@@ -53,6 +53,7 @@ func TestC25ConcurrentReads(t *testing.T) {
 		prof["createPool"], prof["createToken"], prof["delegate"], prof["unbond"], prof["declare"] = 30, 10, 8, 6, 4
 		h := newHistory(t, wo, prof, sim.BlockOpts{MaxTxs: 10, Absences: true, Evidence: true})
 		n, r, w := h.N, h.R, h.W
+		h.G.Detached = true // the generator's view must not refill or reload the live caches
 		twin := sim.NewNode(w)
 		twin.Name = "twin"
 		r.Mirrors = []*sim.Node{twin}
@@ -271,6 +272,7 @@ func c25Sequential(t *rapid.T, onDivergence func(string)) {
 		prof["addOrder"], prof["removeOrder"] = 14, 8
 		h := newHistory(t, wo, prof, sim.BlockOpts{MaxTxs: 8, Absences: false, Evidence: false})
 		n, r, w := h.N, h.R, h.W
+		h.G.Detached = true // the generator's view must not refill or reload the live caches
 		twin := sim.NewNode(w)
 		twin.Name = "twin"
 		r.Mirrors = []*sim.Node{twin}
